@@ -5,7 +5,10 @@ import (
 	"time"
 )
 
-func init() { register("C01", propC01) }
+func init() {
+	register("C01", propC01)
+	register("C02", propC02)
+}
 
 type modeSpec struct {
 	Name string
@@ -18,12 +21,6 @@ func stdModes() []modeSpec {
 		{Name: "IDATA-rr", A: epCfg{RoundRobin: true}, B: epCfg{Server: true, RoundRobin: true}},
 		{Name: "IDATA-wfq", A: epCfg{}, B: epCfg{Server: true}},
 	}
-}
-
-type tsnPair struct{ A, B uint32 }
-
-func stdTSNPairs() []tsnPair {
-	return []tsnPair{{1000, 70000}, {0xFFFFFFFD, 0xFFFFFFD8}}
 }
 
 func withBase(c epCfg, mtu uint32, tsn uint32, rtoMax float64) epCfg {
@@ -46,43 +43,131 @@ func generalVerdicts(m *Sim, x *Exec, leak bool) {
 	}
 }
 
-func propC01(j *Job) {
-	for _, mode := range stdModes() {
-		for ti, tp := range stdTSNPairs() {
-			mtu := uint32(100)
-			il := !mode.A.NoInterleave
-			P := int(maxPayloadSizeForMTU(mtu, il))
-			sizes := []int{1, P - 1, P, P + 1, 3 * P}
-			var msgs []msgSpec
-			for i, sz := range sizes {
-				msgs = append(msgs, msgSpec{Size: sz, PPI: PayloadProtocolIdentifier(51 + i%3)})
+func healTime(x *Exec) time.Duration {
+	var h time.Duration
+	for _, ev := range x.Events {
+		switch ev.Kind {
+		case "drop", "dup", "late", "swap", "kill":
+			if ev.At > h {
+				h = ev.At
 			}
-			spec := &xferSpec{
-				A:       withBase(mode.A, mtu, tp.A, 4000),
-				B:       withBase(mode.B, mtu, tp.B, 4000),
-				Streams: []streamSpec{{SID: 1, From: 0, Msgs: msgs}},
-				Faults:  faultSet{Drop: true, Dup: true, Late: true, Swap: true},
-			}
-			res := &xferResult{}
-			spec.Final = func(m *Sim, x *Exec, r *xferResult) {
-				generalVerdicts(m, x, false)
-				if !r.Connected {
-					m.Failf("connect", "handshake failed without faults: %v %v", m.Err[0], m.Err[1])
-					return
-				}
-				for _, st := range spec.Streams {
-					checkDelivery(m, "delivery", st, r.Written[st.SID], r.Read[st.SID], true)
-				}
-				runWireMonitors(m, x, allMonitors())
-				m.Observe("%s drained=%v", deliverySummary(spec, r), r.Drained)
-			}
-			sc := xferScenario(spec, res)
-			k := 1
-			if j.Thorough() {
-				k = 2
-			}
-			j.Explore(fmt.Sprintf("W1/%s/tsn%d/mtu%d", mode.Name, ti, mtu), sc, Budget{K: k}, nil)
+		}
+		if ev.Pkt != nil && ev.Pkt.tag != "" && ev.Kind == "deliver" && ev.At > h {
+			h = ev.At // a delayed / duplicated copy arriving is still part of the fault prefix
 		}
 	}
-	_ = time.Second
+	return h
+}
+
+// deliveryFinal is the C01 oracle (+ always-on monitors).
+func deliveryFinal(spec *xferSpec, withStall bool, mon monOpts) func(m *Sim, x *Exec, r *xferResult) {
+	return func(m *Sim, x *Exec, r *xferResult) {
+		generalVerdicts(m, x, false)
+		if !r.Connected {
+			m.Failf("connect", "handshake failed without faults: %v %v", m.Err[0], m.Err[1])
+			return
+		}
+		for _, st := range spec.Streams {
+			checkDelivery(m, "delivery", st, r.Written[st.SID], r.Read[st.SID], true)
+		}
+		o := mon
+		if spec.NoSackComplete {
+			o.SackComplete = false
+		}
+		runWireMonitors(m, x, o)
+		if withStall {
+			rtoMax := 4 * time.Second
+			if spec.A.RTOMax != 0 {
+				rtoMax = time.Duration(spec.A.RTOMax) * time.Millisecond
+			}
+			h := healTime(x)
+			if spec.PauseReader > h {
+				h = spec.PauseReader
+			}
+			bound := h + 8*rtoMax
+			if !r.Drained {
+				m.Failf("stall", "not drained %v after the last fault (heal at %v): buffered A=%d B=%d, delivered %s", r.DrainAt-h, h, bufAmt(m.As[0]), bufAmt(m.As[1]), deliverySummary(spec, r))
+			} else if r.DrainAt > bound {
+				m.Failf("stall.late", "drained only at %v, more than 8 RTOmax after the heal point %v", r.DrainAt, h)
+			}
+			for i, b := range r.BufAtDrain {
+				if r.Drained && b != 0 {
+					m.Failf("stall.buffered", "endpoint %d reports %d buffered bytes after everything was acknowledged", i, b)
+				}
+			}
+		}
+		m.Observe("%s drained=%v", deliverySummary(spec, r), r.Drained)
+	}
+}
+
+func bufAmt(a *Association) int {
+	if a == nil {
+		return -1
+	}
+	return a.pendingQueue.getNumBytes() + a.inflightQueue.getNumBytes()
+}
+
+func runCases(j *Job, cases []xferCase, final func(spec *xferSpec) func(m *Sim, x *Exec, r *xferResult)) {
+	for _, c := range cases {
+		if j.capped() {
+			return
+		}
+		spec := c.Spec
+		spec.Final = final(spec)
+		if spec.BeforeClose == nil {
+			spec.BeforeClose = func(m *Sim, r *xferResult) {
+				for i := 0; i < 2; i++ {
+					if m.As[i] != nil {
+						r.BufAtDrain[i] = m.As[i].BufferedAmount()
+					}
+				}
+			}
+		}
+		res := &xferResult{}
+		j.Explore(c.Name, xferScenario(spec, res), Budget{K: c.K}, nil)
+	}
+}
+
+func propC01(j *Job) {
+	modes := stdModes()
+	var cases []xferCase
+	if j.Thorough() {
+		cases = append(cases, famW1(modes, []uint32{0, 3, 4, 6, 7}, 2)...)
+		cases = append(cases, famW1(modes, []uint32{1, 2, 5, 8, 9, 10, 11, 12}, 1)...)
+		cases = append(cases, famW2(modes, 2)...)
+		cases = append(cases, famW3(modes, 1)...)
+		cases = append(cases, famW4(modes, 2)...)
+		cases = append(cases, famW5(modes, 3)...)
+	} else {
+		cases = append(cases, famW1(modes, []uint32{0, 4}, 1)...)
+		cases = append(cases, famW1(modes, []uint32{1, 2, 3, 5, 6, 7, 8}, 0)...)
+		cases = append(cases, famW1(modes[:1], []uint32{6}, 2)...)
+		cases = append(cases, famW2(modes, 1)...)
+		cases = append(cases, famW3(modes[:1], 0)...)
+		cases = append(cases, famW4(modes, 1)...)
+		cases = append(cases, famW5(modes, 2)...)
+	}
+	runCases(j, cases, func(spec *xferSpec) func(m *Sim, x *Exec, r *xferResult) { return deliveryFinal(spec, false, monOpts{}) })
+	_ = fmt.Sprint
+}
+
+func propC02(j *Job) {
+	modes := stdModes()
+	var cases []xferCase
+	if j.Thorough() {
+		cases = append(cases, famW1(modes, []uint32{0, 6}, 2)...)
+		cases = append(cases, famW2(modes, 2)...)
+		cases = append(cases, famZ1(modes, 2)...)
+		cases = append(cases, famZ2(modes, 1)...)
+		cases = append(cases, famZ4([]uint32{504000, 520000, 1048576}, []int{300, 1500, 4200})...)
+		cases = append(cases, famW5(modes, 2)...)
+	} else {
+		cases = append(cases, famW1(modes, []uint32{6}, 1)...)
+		cases = append(cases, famW2(modes[:1], 1)...)
+		cases = append(cases, famZ1(modes, 1)...)
+		cases = append(cases, famZ2(modes[:2], 0)...)
+		cases = append(cases, famZ2(modes[:1], 1)...)
+		cases = append(cases, famZ4([]uint32{520000, 1048576}, []int{300, 4200})...)
+	}
+	runCases(j, cases, func(spec *xferSpec) func(m *Sim, x *Exec, r *xferResult) { return deliveryFinal(spec, true, monOpts{}) })
 }
